@@ -242,3 +242,90 @@ impl Clone for FeePercentilesCache {
 //@ before "let tip_block_hash = main_chain.tip().block_hash();"
 //@| proof { state.unstable_blocks.tree.lemma_best_key_pos(); state.unstable_blocks.tree.lemma_best_path_len(); }
 //@end
+
+// ---- the fee rate of ONE transaction: the post-upgrade recomputation (fee_percentiles.rs:131) and the insertion-time
+// ---- computation (outpoints_cache.rs:101) are the same function of (transaction, sum of its input values) -------------------
+// [trusted:stand-in] ic_btc_types::Transaction / bitcoin::{TxIn, TxOut, OutPoint}: opaque; sizes and sums are uninterpreted
+// functions of the transaction (vsize / total_size / base_size are DIFFERENT functions)
+struct BitcoinOutPoint { id: u64 }
+struct TxIn { previous_output: BitcoinOutPoint }
+struct BitcoinTxOut { id: u64 }
+struct Transaction { id: u64 }
+// [trusted:stand-in] `(&bitcoin_outpoint).into()` (From<&bitcoin::OutPoint> for ic_btc_types::OutPoint; R9 turns it into this call)
+#[verifier::external_body]
+fn vp_outpoint_of(o: &BitcoinOutPoint) -> (r: OutPoint) ensures r == outpoint_of(*o) { unimplemented!() }
+uninterp spec fn outpoint_of(o: BitcoinOutPoint) -> OutPoint;
+impl Transaction {
+    uninterp spec fn is_coinbase_spec(&self) -> bool;
+    uninterp spec fn input_spec(&self) -> Seq<TxIn>;
+    uninterp spec fn output_sum_spec(&self) -> u64;
+    uninterp spec fn vsize_spec(&self) -> usize;
+    uninterp spec fn total_size_spec(&self) -> usize;
+    uninterp spec fn base_size_spec(&self) -> usize;
+    #[verifier::external_body] fn is_coinbase(&self) -> (r: bool) ensures r == self.is_coinbase_spec() { unimplemented!() }
+    #[verifier::external_body] fn input(&self) -> (r: &[TxIn]) ensures r@ == self.input_spec() { unimplemented!() }
+    #[verifier::external_body] fn vsize(&self) -> (r: usize) ensures r == self.vsize_spec() { unimplemented!() }
+    #[verifier::external_body] fn total_size(&self) -> (r: usize) ensures r == self.total_size_spec() { unimplemented!() }
+    #[verifier::external_body] fn base_size(&self) -> (r: usize) ensures r == self.base_size_spec() { unimplemented!() }
+}
+// [trusted:stand-in] `tx.output().iter().map(|o| o.value.to_sat()).sum()` (closure pipeline; R9 turns it into this call): the sum of the output values
+#[verifier::external_body]
+fn vp_output_sum(tx: &Transaction) -> (r: u64) ensures r == tx.output_sum_spec() { unimplemented!() }
+
+// sum of the values of the first n inputs, looked up in the unstable blocks' TxOut cache
+spec fn input_sum_spec(tx: &Transaction, ub: &UnstableBlocks, n: int) -> int
+    decreases n,
+{
+    if n <= 0 || n > tx.input_spec().len() { 0 } else { input_sum_spec(tx, ub, n - 1) + value_spec(ub, outpoint_of(tx.input_spec()[n - 1].previous_output)) }
+}
+// C15, from the statement: fee rate = floor(1000 x (inputs - outputs) / vsize) millisatoshi per VIRTUAL byte; coinbases,
+// transactions whose outputs exceed their inputs and zero-size transactions contribute nothing
+spec fn tx_rate_spec(tx: &Transaction, input_sum: int) -> Option<u64> {
+    if tx.is_coinbase_spec() || input_sum < tx.output_sum_spec() || tx.vsize_spec() == 0 { None }
+    else { Some(((1000 * (input_sum - tx.output_sum_spec())) / (tx.vsize_spec() as int)) as u64) }
+}
+
+//@extract file=canister/src/api/fee_percentiles.rs item="fn get_tx_fee_per_byte" props=C15
+//@ ret r
+//@ rewrite R10 "\.unwrap_or_else\(\|\| vp_trap\(\)\)" => ".unwrap()"
+//@ rewrite R9 "\(&tx_in\.previous_output\)\.into\(\)" => "vp_outpoint_of(&tx_in.previous_output)"
+//@ rewrite R9 "tx\.output\(\)\.iter\(\)\.map\(\|o\| o\.value\.to_sat\(\)\)\.sum\(\)" => "vp_output_sum(tx)"
+//@ spec
+//@| requires
+//@|     // [assumption, stated] the input values of one transaction sum to less than 2^64/1000 satoshi (total supply is 2.1e15)
+//@|     1000 * input_sum_spec(tx, unstable_blocks, tx.input_spec().len() as int) <= u64::MAX,
+//@| ensures
+//@|     r == tx_rate_spec(tx, input_sum_spec(tx, unstable_blocks, tx.input_spec().len() as int)),
+//@ loop 1 binder=iti
+//@| invariant
+//@|     input_sum == input_sum_spec(tx, unstable_blocks, iti.index@ as int),
+//@|     1000 * input_sum_spec(tx, unstable_blocks, tx.input_spec().len() as int) <= u64::MAX,
+//@ before "input_sum += unstable_blocks"
+//@| proof {
+//@|     lemma_input_sum_mono(tx, unstable_blocks, iti.index@ + 1, tx.input_spec().len() as int);
+//@|     assert(*tx_in == tx.input_spec()[iti.index@ as int]);
+//@| }
+//@end
+proof fn lemma_input_sum_mono(tx: &Transaction, ub: &UnstableBlocks, i: int, j: int)
+    requires 0 <= i <= j <= tx.input_spec().len(),
+    ensures 0 <= input_sum_spec(tx, ub, i) <= input_sum_spec(tx, ub, j),
+    decreases j
+{
+    if i < j { lemma_input_sum_mono(tx, ub, i, j - 1); }
+    else if i > 0 { lemma_input_sum_mono(tx, ub, i - 1, i - 1); }
+}
+
+// the insertion-time computation (outpoints_cache.rs:101-109): the same function of the transaction and its input sum
+//@slice file=canister/src/unstable_blocks/outpoints_cache.rs item="fn insert_outpoints" from="if !tx.is_coinbase() {" nth=2 to_block=1 props=C15
+//@ rewrite R9 "tx\.output\(\)\.iter\(\)\.map\(\|o\| o\.value\.to_sat\(\)\)\.sum\(\)" => "vp_output_sum(tx)"
+//@ head
+//@| // R8 slice: the fee-rate statement at the end of insert_outpoints' per-transaction loop
+//@| fn insert_outpoints_fee_rate(tx: &Transaction, input_sum: u64, fee_rates: &mut Vec<MillisatoshiPerByte>)
+//@|     requires 1000 * input_sum <= u64::MAX,
+//@|     ensures
+//@|         // exactly the rate the post-upgrade recomputation yields for the same input sum is cached (nothing for None)
+//@|         final(fee_rates)@ == (match tx_rate_spec(tx, input_sum as int) { Some(x) => old(fee_rates)@.push(x), None => old(fee_rates)@ }),
+//@| {
+//@ tail
+//@| }
+//@end
